@@ -157,9 +157,19 @@ class Categorize(Factory, Container):
         out.contentType = self.contentType
         return out
 
+    def _checkContent(self, other):
+        """Bins of two containers can only be merged if they hold the same kind of aggregator, also when no bin is shared."""
+        if self.contentType != other.contentType:
+            raise ContainerException(
+                f"cannot add {self.name}s because the bin contents differ ({self.contentType} vs {other.contentType})"
+            )
+        if self.value is not None and other.value is not None:
+            self.value + other.value  # raises ContainerException when the bin templates differ in structure
+
     @inheritdoc(Container)
     def __add__(self, other):
         if isinstance(other, Categorize):
+            self._checkContent(other)
             out = Categorize(self.quantity, self.value)
             out.entries = self.entries + other.entries
             out.contentType = self.contentType
@@ -178,6 +188,7 @@ class Categorize(Factory, Container):
     @inheritdoc(Container)
     def __iadd__(self, other):
         if isinstance(other, Categorize):
+            self._checkContent(other)
             self.entries += other.entries
             for k in self.keySet.union(other.keySet):
                 if k in self.bins and k in other.bins:
